@@ -196,15 +196,15 @@ class C19(Property):
                   "real concurrent runs; the property's 'once per loss' clause is false when a consumer's recovery starts after the regeneration completed "
                   "(known finding)")
     level_note = "Lean kernel; recovery workflows and inter-workflow token delivery are runtime layers"
-    quick_budget_s = 900
-    thorough_budget_s = 3000
+    quick_budget_s = 2400        # room for one confirmation re-run of a timed-out case (5x its bound), see recov.run_confirmed
+    thorough_budget_s = 6000
     min_nontrivial = 5
 
     def explore(self, ctx: Ctx) -> None:
         quick = ctx.tier == "quick" and ctx.mode != "search"
         cases = gen_cases(ctx.rng, quick)
         results = {}
-        for case, status, r in recov.run_cases(cases, timeout=300, workers=6):
+        for case, status, r in recov.run_cases(cases, timeout=300, workers=6, ctx=ctx):
             results[case["name"]] = (case, status, r)
         lines, meta = [], []
         for name, (case, status, r) in results.items():
